@@ -409,8 +409,44 @@ def fam_eval():
                       ("list", [("try", V("v"), "q", I(-3)), ("try", V("z"), "q", I(-4))]))
 
 
+def fam_catchpat():
+    """refutable catch patterns: a thrown value the pattern does not match travels on unchanged to the enclosing handler - which
+    observes it by binding it or by selecting on it -, a matching one binds the pattern's names in the handler's scope only"""
+    thrown = [I(1), I(2), ("list", [I(1), I(2)]), ("list", [I(2), I(1)]), ("list", [I(1), I(2), I(3)]), ("list", [])]
+    pats = [("plit", 1), ("plit", 2), ("plist", ["a", "b"]), ("plistl", ["a"], 2), ("plist", []), ("pname", "a"), ("pwild", "_")]
+
+    def handler(p):
+        names = p[1] if p[0] in ("plist", "plistl") else ([p[1]] if p[0] == "pname" else [])
+        return ("list", [I(10)] + [V(n) for n in names])
+    observers = [lambda e: ("try", e, "x", ("list", [I(-1), V("x")])),
+                 lambda e: ("try", e, ("plit", 2), I(-2)),
+                 lambda e: ("try", e, ("plist", ["c", "d"]), ("list", [I(-3), V("d"), V("c")])),
+                 lambda e: ("call", ("lambda", [], ("try", e, "x", ("list", [I(-4), V("x")]))), []),
+                 lambda e: ("for", [("each", "i", ("list", [I(1), I(2)]))], ("yield", ("try", e, "x", ("list", [V("i"), V("x")])), None))]
+    bodies = [lambda t: ("throw", t),
+              lambda t: seq(P(I(0)), ("throw", t), P(I(99))),
+              lambda t: ("call", ("lambda", [], ("throw", t)), []),
+              lambda t: ("for", [("each", "j", ("list", [I(5), I(6)]))], ("yield", ("throw", t), None))]
+    for t in thrown:
+        for p in pats:
+            for bi, body in enumerate(bodies):
+                inner = ("try", body(t), p, handler(p))
+                for oi, obs in enumerate(observers):
+                    if bi and oi > 2:
+                        continue
+                    # the outermost handler always binds, so that the value that finally travels is compared; `a` must not have leaked
+                    yield ("list", [("try", obs(inner), "z", ("list", [I(-9), V("z")])), ("try", V("a"), "q", I(-7))])
+            # two refutable handlers in a row, and a handler that throws again
+            for p2 in pats[:5]:
+                yield ("try", ("try", ("try", ("throw", t), p, handler(p)), p2, ("list", [I(20)] + handler(p2)[1][1:])), "z", ("list", [I(-9), V("z")]))
+            yield ("try", ("try", ("try", ("throw", t), p, ("throw", ("list", [I(30)] + handler(p)[1][1:]))), ("plit", 1), I(40)), "z", ("list", [I(-9), V("z")]))
+    # errors raised by the interpreter itself against refutable patterns: only raised / not raised and the handler chosen are modelled
+    for p in pats:
+        yield ("try", ("try", ("try", V("never"), p, I(10)), "x", I(-1)), "z", I(-9))
+
+
 FAMILIES = [("loops", fam_loops), ("scoping", fam_scoping), ("closures", fam_closures), ("lambdas", fam_lambdas), ("shortcircuit", fam_shortcircuit),
-            ("yield", fam_yield), ("eval", fam_eval)]
+            ("yield", fam_yield), ("eval", fam_eval), ("catchpat", fam_catchpat)]
 
 
 def bounds(tier):
